@@ -30,11 +30,58 @@ MNONE = z3.Function("guess_type_is_none", S, z3.BoolSort())
 NOTSUP = "ExtractionFileFormatNotSupportedError"
 
 
+class TableUnknown(ops.Unsupported):
+    """a routing table whose module-level initialiser the engine cannot evaluate to a constant"""
+
+
+_TABLES = {}
+
+
+def const_table(rel, name, repo=None):
+    """Python value of a module-level table: the literal when it is one, else the module-level initialiser is executed by the
+    engine (computed tables: merged dicts, comprehensions, hoisted prefixes) and must evaluate to constants."""
+    import ast as _ast
+    m = loader.module(rel, repo)
+    key = (m.repo, rel, name)
+    if key in _TABLES:
+        return _TABLES[key]
+    if name not in m.assigns:
+        raise TableUnknown(f"{rel}: no module-level binding of {name}")
+    try:
+        val = _ast.literal_eval(m.assigns[name])
+    except (ValueError, SyntaxError, TypeError):
+        from pyvc.contracts import Registry
+        from pyvc.exctypes import Universe
+        from pyvc.symex import Executor as _Ex
+        ex = _Ex(m, Registry(), Universe(m.repo))
+        ex.sinks.append([])
+        val = _unlift(ex.module_const(name), f"{rel}::{name}")
+    _TABLES[key] = val
+    return val
+
+
+def _unlift(v, what):
+    from pyvc.values import VDictC, VSetC, VInt, VBool
+    if isinstance(v, VDictC):
+        return {k: _unlift(x, what) for k, x in v.items.items()}
+    if isinstance(v, VSetC):
+        return set(v.items)
+    if isinstance(v, VTuple):
+        return tuple(_unlift(x, what) for x in v.items)
+    if isinstance(v, (VStr, VInt, VBool)) and v.const() is not None:
+        return v.const()
+    if v is NONE:
+        return None
+    raise TableUnknown(f"{what} does not evaluate to a constant table")
+
+
 def tables(repo=None):
-    r = loader.module(ROUTER, repo)
-    m = loader.module(MIME, repo)
-    return (r.literal("_EXTRACTOR_REGISTRY"), r.literal("_EXTENSION_ALIASES"), r.literal("_COMPOUND_EXTENSIONS"),
-            m.literal("MIME_TYPE_MAPPING"))
+    reg, ali, comp, mimes = (const_table(ROUTER, "_EXTRACTOR_REGISTRY", repo), const_table(ROUTER, "_EXTENSION_ALIASES", repo),
+                             const_table(ROUTER, "_COMPOUND_EXTENSIONS", repo), const_table(MIME, "MIME_TYPE_MAPPING", repo))
+    for nm, t in (("_EXTRACTOR_REGISTRY", reg), ("_EXTENSION_ALIASES", ali), ("_COMPOUND_EXTENSIONS", comp), ("MIME_TYPE_MAPPING", mimes)):
+        if not isinstance(t, dict) or not all(isinstance(k, str) for k in t):
+            raise TableUnknown(f"{nm} is not a dict with string keys")
+    return reg, ali, comp, mimes
 
 
 def splitext_axioms(p):
@@ -139,7 +186,6 @@ EXECUTOR = readfile.ReadFileExecutor
 def contracts(reg):
     install(reg)
     out = []
-    REG = tables()[0]
 
     def ft_returns(c):
         p = c.args["path_lower"].t
@@ -154,7 +200,7 @@ def contracts(reg):
     ))
 
     def in_reg(t):
-        return z3.Or([t == z3.StringVal(k) for k in REG])
+        return z3.Or([t == z3.StringVal(k) for k in tables()[0]])
 
     out.append(FnContract(
         target=f"{ROUTER}::_get_extractor",
@@ -337,7 +383,10 @@ def lemmas():
     """Spec-level lemmas over the verified contracts (built once per process and tree: every lemma job asks for the whole list)."""
     key = loader.REPO
     if key not in _LEMMAS:
-        _LEMMAS[key] = _lemmas()
+        try:
+            _LEMMAS[key] = _lemmas()
+        except ops.Unsupported:
+            _LEMMAS[key] = []        # tables not evaluable: reported as `unknown` by policy(); never a crash
     return _LEMMAS[key]
 
 
@@ -422,6 +471,17 @@ ASSUMPTIONS = ["PY-STR: str as sequence of code points (z3 String)", "PY-EXC", "
 
 # ------------------------------------------------------------ policy / tables --
 def policy(repo, tier):
+    from pyvc.flow import ground_obligation
+    try:
+        return _policy(repo, tier)
+    except (ops.Unsupported, KeyError, ValueError, TypeError, AttributeError, IndexError, SyntaxError) as e:
+        # a shape of the (changed) tables / documentation this pack does not recognise: undecided, the native replayer decides
+        return {"obligations": [ground_obligation("C07/router.py::tables/module-invariant#tables-evaluate-to-constants", False,
+                                                  f"{type(e).__name__}: {e}"[:300], "tables", kind="module-invariant", backend="ground", definite=False)],
+                "functions": []}
+
+
+def _policy(repo, tier):
     import ast as _ast
     import re
     from pyvc.flow import ground_obligation, dotted
@@ -500,17 +560,6 @@ def policy(repo, tier):
     G("C07/__init__.py::read_file/module-invariant#docstring-extension-to-content-type", not bad and len(rows) >= 15, f"{len(rows)} rows; bad={bad}")
     # dispatch sites reuse the router
     P = lambda oid, ok, why="": obls.append(ground_obligation(oid, ok, why or "call-site shape not recognised", "call-sites", definite=False))
-    calls = [n for n in _ast.walk(rf) if isinstance(n, _ast.Call)]
-    ge = [n for n in calls if dotted(n.func) == "get_extractor"]
-    assigned = [n for n in _ast.walk(rf) if isinstance(n, _ast.Assign) and isinstance(n.value, _ast.Call) and dotted(n.value.func) == "get_extractor"]
-    ok = len(ge) == 1 and len(assigned) == 1 and _ast.unparse(ge[0].args[0]) == "str(path)" and init.imports.get("get_extractor", "").endswith("router.get_extractor")
-    if ok:
-        var = assigned[0].targets[0].id
-        uses = [n for n in calls if dotted(n.func) == var]
-        stores = [n for n in _ast.walk(rf) if isinstance(n, _ast.Name) and n.id == var and isinstance(n.ctx, _ast.Store)]
-        ok = len(uses) == 1 and len(stores) == 1 and len(uses[0].args) == 2 and _ast.unparse(uses[0].args[1]) == "str(path)"
-    P("C07/__init__.py::read_file/call-site#dispatches-through-get_extractor(str(path))", ok)
-    fns.append(dict(init.fn_info("read_file"), obligations=1))
     obls.extend(member_sites(repo, fns))
     obls.extend(table_policies(repo))
     return {"obligations": obls, "functions": fns}
@@ -524,15 +573,13 @@ def table_policies(repo):
     """Package-wide premises of the table-based proofs (the specs read the *literals* of the routing tables): each table is
     bound exactly once, at module level, and nothing in the package stores into it, deletes from it or calls a mutating method
     on it; and no module other than the router takes a routing decision from the tables (a second decision procedure next to
-    is_supported_file / get_extractor is how dispatch sites drift away from the router).  MIME_TYPE_MAPPING is read outside
-    the router only by mime_types.is_supported_mime_type and by the attachment site that is under contract."""
+    is_supported_file / get_extractor is how dispatch sites drift away from the router).  The public MIME_TYPE_MAPPING may be
+    read anywhere (attachment fallback; its readers are not allow-listed by name) but is never mutated either."""
     import ast as _ast
     from pyvc.flow import ground_obligation
     out = []
     bad_mut, bad_ref = [], []
     homes = {ROUTER: set(ROUTING_TABLES), MIME: {"MIME_TYPE_MAPPING"}}
-    allowed_mime_readers = {(MIME, "is_supported_mime_type"),
-                            ("sharepoint2text/parsing/extractors/data_types.py", "EmailContent.iterate_supported_attachments")}
     n_files = 0
     for rel in loader.all_package_files(repo):
         try:
@@ -561,10 +608,6 @@ def table_policies(repo):
                 return e.attr
             return None
 
-        owner = {}
-        for q, f in m.functions.items():
-            for n in _ast.walk(f):
-                owner.setdefault(id(n), q) if "<locals>" not in q else None
         for n in _ast.walk(m.tree):
             # bindings
             if isinstance(n, (_ast.Assign, _ast.AnnAssign, _ast.AugAssign, _ast.Delete, _ast.For, _ast.With, _ast.NamedExpr)):
@@ -587,9 +630,6 @@ def table_policies(repo):
             if t and isinstance(getattr(n, "ctx", None), _ast.Load):
                 if t in ROUTING_TABLES and rel != ROUTER:
                     bad_ref.append(f"{rel}:{n.lineno} reads {t}")
-                if t == "MIME_TYPE_MAPPING" and rel != ROUTER and (rel, owner.get(id(n))) not in allowed_mime_readers \
-                        and not (rel == MIME and owner.get(id(n)) is None):
-                    bad_ref.append(f"{rel}:{n.lineno} reads MIME_TYPE_MAPPING in {owner.get(id(n))}")
             if isinstance(n, _ast.ImportFrom) and n.module and rel != ROUTER:
                 for a in n.names:
                     if a.name in ROUTING_TABLES:
